@@ -161,6 +161,14 @@ class GenInh(Gen):
             if sc:
                 self.iqueue = sc[1:]
                 return sc[0]
+        if w.get("remove_bases", 0) and rng.random() < 0.05:
+            try:
+                sc = self.mk_base_churn()
+            except (IndexError, KeyError, ValueError):
+                sc = None
+            if sc:
+                self.iqueue = sc[1:]
+                return sc[0]
         for _ in range(60):
             kind = rng.choices(kinds, [w[k] for k in kinds])[0]
             try:
@@ -170,6 +178,32 @@ class GenInh(Gen):
             if op is not None:
                 return op
         return {"op": "set_ref", "s": [], "n": "g", "v": ["int", 71, [], ""], "mode": "auto"}
+
+    def mk_base_churn(self):
+        """Scenario: a space with two or three bases loses the EARLIER ones one by one, then gains
+        another base (the position of a new base must not depend on how many were there before)."""
+        rng, sp = self.rng, self.mir["sp"]
+        ops = []
+        cand = [p for p in sp if len(self.mir["bases"][tp(p)]) >= 2]
+        if cand and rng.random() < 0.7:
+            s = rng.choice(cand)
+            bs = [list(b) for b in self.mir["bases"][tp(s)]]
+        else:
+            s = rng.choice(sp)
+            free = [q for q in sp if q != s and list(q) not in self.mir["bases"][tp(s)]
+                    and tp(s) not in self.mro(q)]
+            if len(free) < 2:
+                return None
+            add = rng.sample(free, 2)
+            bs = [list(b) for b in self.mir["bases"][tp(s)]] + [list(b) for b in add]
+            ops.append({"op": "add_bases", "s": list(s), "bs": [list(b) for b in add]})
+        for b in bs[:-1]:
+            ops.append({"op": "remove_bases", "s": list(s), "bs": [list(b)]})
+        others = [q for q in sp if q != s and list(q) != bs[-1] and tp(s) not in self.mro(q)]
+        if not others:
+            return None
+        ops.append({"op": "add_bases", "s": list(s), "bs": [list(rng.choice(others))]})
+        return ops
 
     def mk_name_scenario(self):
         """Multi-step situations around name uniqueness (each step is an ordinary operation;
